@@ -51,8 +51,8 @@ CLAIMS = {
         "technique": "match-arm table extraction from MIR and relational comparison; same-const and orientation checks on comparison statements; ADT discriminant table",
     },
     "C11": {
-        "text": "Decides: derived Ord of ProtocolVersion is strictly increasing in the wire-name version number, printer/parser tables agree and ALL is complete; the server selects with Iterator::max over parsed offers, echoes and runs exactly the selected value, and only upgrades with a selection; the client runs the parsed header value and fails without it. Header string splitting is not decided.",
-        "technique": "match-arm table extraction (printer/parser), ADT variant order, copy-chain provenance of the selected version into response header and spawned handler, success-edge dominance",
+        "text": "Decides: derived Ord of ProtocolVersion is strictly increasing in the wire-name version number, printer/parser tables agree and ALL is complete; the server selects with Iterator::max (or a running-maximum accumulator decided as a truth function) over parsed offers, echoes and runs exactly the selected value, and only upgrades with a selection; every possible source of the client's connection version is a value parsed from the response header (no default or substitute). Header string splitting is not decided.",
+        "technique": "match-arm table extraction (printer/parser), ADT variant order, copy-chain provenance of the selected version into response header and spawned handler, success-edge dominance, parsed-only source walk through Option/Result adapters and closures",
     },
     "C12": {
         "text": "Decides the control-flow order of token sources in ClientRequest::auth_token on all paths: headers first and in order, non-ASCII header aborts with None (no query fallback), first Bearer match returns immediately, query only after header exhaustion, scheme/token are the halves of split_once. Case-folding and form-decoding semantics are not decided.",
@@ -139,8 +139,8 @@ CLAIMS = {
         "technique": "constructor-site inventory, constructor-established invariant, targeted panic inventory over resolved callees (index/expect/copy_from_slice)",
     },
     "C18": {
-        "text": "Decides: AddrMap::get performs lookup, generate-until-unused and both inserts under one continuously held guard on the struct that holds both maps; get is the only writer, nothing is ever removed, forward and reverse insert carry the same pair; per mapped type generate()/try_from agree on prefix constants, subnets are distinct, newtypes only built there; classification tries all mapped kinds first. Randomness quality is not decided.",
-        "technique": "static lockset (single guard spans all map operations), who-writes over HashMap mutators, copy-chain provenance, const-table agreement",
+        "text": "Decides: AddrMap::get performs lookup, generate-until-unused and both inserts under one continuously held guard on the struct that holds both maps; get is the only writer, nothing is ever removed, forward and reverse insert carry the same pair; per mapped type the byte ranges generate() writes (0, 1..6, 6..8 with prefix / global id / subnet constants) are exactly the ranges try_from compares for whole-range equality before any Ok, subnets are distinct, newtypes only built there; classification tries all mapped kinds first. Randomness quality is not decided.",
+        "technique": "static lockset (single guard spans all map operations), who-writes over HashMap mutators, copy-chain provenance, byte-range table agreement between writer and reader (helpers inlined)",
     },
     "C40": {
         "text": "Decides: run loop spawns a handler task only on IncomingFilterOutcome::Accept (outcome->action table for the others); handle_connection invokes exactly the map entry for the connection's negotiated ALPN, nothing without an entry, accept() gets on_accepting's connection; set_alpns receives the map's keys. ALPN negotiation in noq/rustls is not decided.",
@@ -155,11 +155,11 @@ CLAIMS = {
         "technique": "return-shape classification, match-arm table extraction, reachability from None edges, relation-table extraction of boolean predicates (allowed-operation sets per match region + exact operand provenance), search-order dominance",
     },
     "C21": {
-        "text": "Decides the hand-off protocol shape: run() has no in-loop return, closes the inbox before draining, returns the drained buffer with its own id, handles initial messages first; remove_or_restart_actor removes on empty leftovers else restarts *the same id* with exactly the leftovers and stores the new sender; send_to_actor hands the joined task's own id on, appends the failed message after the leftovers; only those two functions write senders / start actors. Interleavings with try_send from other threads are not explored.",
+        "text": "Decides the hand-off protocol shape: run() has no in-loop return, closes the inbox before draining, returns the drained buffer with its own id, handles initial messages first; remove_or_restart_actor removes on empty leftovers else restarts *the same id* with exactly the leftovers and stores the new sender; send_to_actor hands the joined task's own id on, hands over exactly [leftovers, failed message] in that order (sequence abstraction over push / chain / once / collect); only those two functions write senders / start actors. Interleavings with try_send from other threads are not explored.",
         "technique": "must-precede / must-pass-through on coroutine MIR, copy-chain provenance of ids and message vectors, who-writes",
     },
     "C22": {
-        "text": "Decides linearity (answered-or-queued on every path, every queued sender drained and replied) and reply correctness shape (immediate Ok iff paths non-empty and nothing else decides; Err only built under paths.is_empty(); emit only from three callers, insert_multiple only on the empty->non-empty transition; finished only on terminal lookup arms; paths only removed by pruning). `never loses all paths` depends on pruning arithmetic (C23) and is not decided.",
+        "text": "Decides linearity (answered-or-queued on every path, every queued sender drained and replied) and reply correctness shape (immediate Ok iff paths non-empty and nothing else decides; Err only built under paths.is_empty(); emit only from three callers, insert_multiple only on the empty->non-empty transition; finished only on terminal lookup arms and on every path of each terminal arm; paths only removed by pruning). `never loses all paths` depends on pruning arithmetic (C23) and is not decided.",
         "technique": "linear-resource rule (by-value consumers on all paths), success-edge dominance, who-calls/who-writes",
     },
     "C24": {
